@@ -196,6 +196,26 @@ static void history(vt::Rng& r, int nops) {
       case 2:
       case 3: {
         long x = coord(r, W), y = coord(r, H), w = r.chance(10) ? (long)r.range(-5, 1000000000) : (long)r.range(-2, W + 4), h = (long)r.range(-2, H + 4);
+        // (every fourth fill; decided by a counter, not by the random stream, so that adding this case left every other
+        // generated call - in particular the far lines of the line law - exactly as it was)
+        static unsigned fill_no = 0;
+        if (fill_no++ % 4 == 3) {
+          // text without a single glyph cell (empty, or only line ends): what is drawn is exactly the background column
+          // that closes every line - one 1 x 9 fill per line at (x - 1, y - 1 + 8 * line); the variants rotate
+          static unsigned rot = 0;
+          static const char* texts[] = {"", "\n", "\r", "\n\n", "\r\n", "\n\r\n\n"};
+          static const int lines[] = {1, 2, 1, 3, 2, 4};
+          unsigned k = rot++ % 6;
+          string out = guarded([&] {
+            if (g_packed) dst.draw_text(x, y, 0x010203FFu, PK(c), "%s", texts[k]);
+            else dst.draw_text(x, y, 1, 2, 3, 255, c[0], c[1], c[2], c[3], "%s", texts[k]);
+          });
+          vt::J j;
+          j.str("e", "textbg").num("x", x).num("y", y).num("lines", lines[k]).raw("c", col_json(c)).str("out", out).raw("px", px_json(dst));
+          tr.emit(j);
+          tr.nontrivial("textbg" + to_string(k) + to_string(c[3] == 255) + to_string(c[3] == 0));
+          break;
+        }
         string out = guarded([&] {
           if (g_packed) dst.fill_rect(x, y, w, h, PK(c));
           else dst.fill_rect(x, y, w, h, c[0], c[1], c[2], c[3]);
